@@ -114,6 +114,20 @@ def run_once(make_exec: Callable[[], Any], seed: int, budget: int,
     return res
 
 
+def shared(make_exec: Callable[[], Any]) -> Callable[[], Any]:
+    """The second run of a configuration re-uses the Execution object (and
+    with it the algorithm, objective and encoding objects) of the first one:
+    "repeating the run" must not depend on state left behind by a run."""
+    memo: list = []
+
+    def get() -> Any:
+        if not memo:
+            memo.append(make_exec())
+        return memo[0]
+
+    return get
+
+
 def _execute(ex: Any, res: dict, make_y: Callable[[], Any] | None,
              mo: bool) -> None:
     with ex.execute() as proc:
@@ -244,12 +258,16 @@ def check_bp(ctx: Ctx, case: dict) -> None:
     algo = str(ex0._algorithm) if hasattr(ex0, "_algorithm") else "algo"
     with TempDir() as tmp:
         f1 = log_path(tmp, algo, inst.name, case["seed"])
-        r1 = sut(what + " run", run_once, make, case["seed"],
+        same = shared(make)
+        r1 = sut(what + " run", run_once, same, case["seed"],
                  case["budget"], space.create, f1)
-        r2 = sut(what + " re-run", run_once, make, case["seed"],
-                 case["budget"], space.create, None)
+        r2 = sut(what + " re-run (same objects)", run_once, same,
+                 case["seed"], case["budget"], space.create, None)
+        r3 = sut(what + " re-run (new objects)", run_once, make,
+                 case["seed"], case["budget"], space.create, None)
         budget_ok(r1, case["budget"], what)
-        same_run(r1, r2, what)
+        same_run(r1, r2, what + " (same objects)")
+        same_run(r1, r3, what + " (new objects)")
         y = r1["y"]
         rows = gen_bp.rows_of(y)
         why = oracle_bp.infeasibility(W, H, items, rows, y.n_bins)
@@ -375,12 +393,16 @@ def check_tsp(ctx: Ctx, case: dict) -> None:
             return ex.set_algorithm(TSPFEA1p1revn(inst))
         return ex.set_algorithm(RLS(Op0Shuffle(space), Op1SwapN()))
 
-    r1 = sut(what + " run", run_once, make, case["seed"], case["budget"],
+    same = shared(make)
+    r1 = sut(what + " run", run_once, same, case["seed"], case["budget"],
              None)
-    r2 = sut(what + " re-run", run_once, make, case["seed"], case["budget"],
-             None)
+    r2 = sut(what + " re-run (same objects)", run_once, same, case["seed"],
+             case["budget"], None)
+    r3 = sut(what + " re-run (new objects)", run_once, make, case["seed"],
+             case["budget"], None)
     budget_ok(r1, case["budget"], what)
-    same_run(r1, r2, what)
+    same_run(r1, r2, what + " (same objects)")
+    same_run(r1, r3, what + " (new objects)")
     x = [int(v) for v in r1["x"]]
     require(oracle_tsp.is_permutation(x, n), f"{what}: result {x} is not a "
             "permutation")
@@ -428,12 +450,16 @@ def check_ttp(ctx: Ctx, case: dict) -> None:
     def make() -> Any:
         return setup(inst)
 
-    r1 = sut(what + " run", run_once, make, case["seed"], case["budget"],
+    same = shared(make)
+    r1 = sut(what + " run", run_once, same, case["seed"], case["budget"],
              space.create, None, mo)
-    r2 = sut(what + " re-run", run_once, make, case["seed"], case["budget"],
-             space.create, None, mo)
+    r2 = sut(what + " re-run (same objects)", run_once, same, case["seed"],
+             case["budget"], space.create, None, mo)
+    r3 = sut(what + " re-run (new objects)", run_once, make, case["seed"],
+             case["budget"], space.create, None, mo)
     budget_ok(r1, case["budget"], what)
-    same_run(r1, r2, what)
+    same_run(r1, r2, what + " (same objects)")
+    same_run(r1, r3, what + " (new objects)")
     y = r1["y"]
     sut("GamePlanSpace.validate", space.validate, y)
     plan = [[int(v) for v in row] for row in y]
@@ -497,12 +523,16 @@ def check_qap(ctx: Ctx, case: dict) -> None:
     def make() -> Any:
         return getattr(mod, case["setup"])(inst)
 
-    r1 = sut(what + " run", run_once, make, case["seed"], case["budget"],
+    same = shared(make)
+    r1 = sut(what + " run", run_once, same, case["seed"], case["budget"],
              None)
-    r2 = sut(what + " re-run", run_once, make, case["seed"], case["budget"],
-             None)
+    r2 = sut(what + " re-run (same objects)", run_once, same, case["seed"],
+             case["budget"], None)
+    r3 = sut(what + " re-run (new objects)", run_once, make, case["seed"],
+             case["budget"], None)
     budget_ok(r1, case["budget"], what)
-    same_run(r1, r2, what)
+    same_run(r1, r2, what + " (same objects)")
+    same_run(r1, r3, what + " (new objects)")
     p = [int(v) for v in r1["x"]]
     require(oracle_tsp.is_permutation(p, n), f"{what}: not a permutation")
     flows = [[int(v) for v in row] for row in np.asarray(inst.flows)]
